@@ -1,3 +1,63 @@
-(* C01 — subscription matching selects exactly the MQTT-matching subscribers.  (statements follow) *)
-From MV Require Import Base.Val Topics.Levels Topics.Match Topics.IndexSpec Topics.Trie.
+(* C01 — subscription matching selects exactly the MQTT-matching subscribers.
+   Statements only; every proof is [exact lemma] (plus unfolding of the section lemmas). *)
+From MV Require Import Base.Val Topics.Levels Topics.Match Topics.Alist Topics.IndexSpec Topics.Trie
+  Topics.TrieRefine Topics.TrieSelect Findings.FixedC01.
 Open Scope N_scope.
+
+(* For every history of Subscribe / Unsubscribe / InlineSubscribe / InlineUnsubscribe / RetainMessage calls
+   (shared filters having a filter part after $share/<group>/) and every topic name, the three result sets
+   of Subscribers(topic) on the particle tree built by the history are exactly the subscriptions of the
+   abstract set (abs ops) whose filter matches the topic under the MQTT rules [topic_matches]:
+   client subscriptions on their filter, shared subscriptions on the filter that follows $share/<group>/,
+   inline subscriptions on their filter. *)
+Theorem C01_refines : forall ops t, wf_ops ops -> valid_topic t ->
+  set_eq (r_cl (subscribers (run ops) t)) (sel_cl (abs ops) t) /\
+  set_eq (r_sh (subscribers (run ops) t)) (sel_sh (abs ops) t) /\
+  set_eq (r_in (subscribers (run ops) t)) (sel_in (abs ops) t).
+Proof.
+  intros ops t W V. pose proof (R_run ops W) as HR.
+  exact (conj (select_clients _ _ HR t V) (conj (select_shared _ _ HR t V) (select_inline _ _ HR t V))).
+Qed.
+
+(* the abstract shared entries are keyed by (client, group, filter after $share/<group>/) of the filter as given *)
+Theorem C01_shared_on_inner_filter : forall ops c g i full pay, wf_ops ops ->
+  In ((c, g, i), (full, pay)) (a_sh (abs ops)) ->
+  is_share full = true /\ share_group full = g /\ eff_filter full = i.
+Proof. intros ops c g i full pay W. exact (abs_shared_key _ _ c g i full pay (R_run ops W)). Qed.
+
+(* consequences spelled out: nothing is selected whose filter does not match; a filter starting with a
+   wildcard is never selected for a $-topic *)
+Theorem C01_only_matching : forall ops t c f pay, wf_ops ops -> valid_topic t ->
+  In (c, f, pay) (r_cl (subscribers (run ops) t)) -> topic_matches f t = true.
+Proof.
+  intros ops t c f pay W V HI. apply (proj1 (C01_refines ops t W V)) in HI.
+  unfold sel_cl in HI. apply in_flat_map in HI. destruct HI as ([[c' f'] p'] & _ & HI).
+  destruct (topic_matches f' t) eqn:M; [|destruct HI]. destruct HI as [HI|[]]. inversion HI; subst. exact M.
+Qed.
+
+Theorem C01_dollar : forall f t, starts_dollar t = true -> leading_wild (split f) = true -> topic_matches f t = false.
+Proof. intros f t D L. unfold topic_matches. rewrite D, L. reflexivity. Qed.
+
+(* non-vacuity: a history with all three kinds, an unsubscribe, '+', trailing '#' on the parent level, a $-topic *)
+Example C01_nonvacuous :
+  let ops := [OSub (tag "c1") (tag "+/#") 1; OSub (tag "c2") (tag "$share/g/a/#") 2; OInSub 7 (tag "a/#") 3;
+              OSub (tag "c3") (tag "a") 4; OUnsub (tag "c3") (tag "a"); OSub (tag "c1") (tag "#") 5] in
+  wf_ops ops /\ valid_topic (tag "a") /\
+  r_cl (subscribers (run ops) (tag "a")) = [(tag "c1", tag "+/#", 1); (tag "c1", tag "#", 5)] /\
+  r_sh (subscribers (run ops) (tag "a")) = [(tag "c2", tag "$share/g/a/#", 2)] /\
+  r_in (subscribers (run ops) (tag "a")) = [(7, tag "a/#", 3)] /\
+  r_cl (subscribers (run ops) (tag "$SYS/a")) = [].
+Proof. vm_compute. repeat split; repeat constructor. Qed.
+
+(* the repaired defects (fixed in /repo): the pre-fix scan missed / over-selected *)
+Example C01_prefix_refuted :
+  r_cl (subscribers_prefix (run [OSub (tag "c1") (tag "+/#") 1]) (tag "a")) = [] /\
+  r_in (subscribers_prefix (run [OInSub 7 (tag "x/#") 1]) (tag "x")) = [] /\
+  r_sh (subscribers_prefix (run [OSub (tag "c1") (tag "$share/g/#") 1]) (tag "$foo/x")) = [(tag "c1", tag "$share/g/#", 1)] /\
+  r_in (subscribers_prefix (run [OInSub 7 (tag "+/x") 1]) (tag "$foo/x")) = [(7, tag "+/x", 1)].
+Proof. vm_compute. repeat split. Qed.
+
+Print Assumptions C01_refines.
+Print Assumptions C01_shared_on_inner_filter.
+Print Assumptions C01_only_matching.
+Print Assumptions C01_dollar.
